@@ -286,6 +286,10 @@ def run_world(res, desc, tmpdir):
             res.samples.append({"desc": desc, "snapshot_at": k, "demes": len(tree.all_demes), "loaded_continued_steps": steps, "summary_head": before["summary"][:200]})
         if live_stepped:
             k += 1
+            if k > Mh + 1:
+                # explicit horizon: a tree whose evaluation-based condition never fires (known finding F1) would go on for ever
+                res.flags["horizon reached with the global condition still false"] += 1
+                break
             continue
         if tree.config.gsc(tree) or k > Mh + 1:
             break
